@@ -16,10 +16,10 @@ echo "demo package: $PKG"
 go build ./... && echo BUILD_OK
 set +e
 go test -count=1 -run 'TestSeedDemo' $PKG > $D/demo_with.log 2>&1; RC1=$?
-git stash -q
+git apply -R $D/patch.diff
 go test -count=1 -run 'TestSeedDemo' $PKG > $D/demo_without.log 2>&1; RC2=$?
 go test -count=1 $PKG > $D/pkg_without.log 2>&1
-git stash pop -q
+git apply $D/patch.diff
 go test -count=1 -skip 'TestSeedDemo' $PKG > $D/pkg_with.log 2>&1; RC3=$?
 echo "demo with change rc=$RC1 (expect !=0); without rc=$RC2 (expect 0); package tests with change (demo skipped) rc=$RC3 (expect 0)"
 echo "{\"property\": \"$P\", \"demo_pkg\": \"$PKG\", \"demo_with_change_rc\": $RC1, \"demo_without_change_rc\": $RC2, \"pkg_tests_with_change_rc\": $RC3}" > $D/confirm.json
